@@ -42,8 +42,17 @@ fn obs_flat(r: &Rope, m: &str, unsafe_only: bool) -> Result<(), String> {
     if r.is_empty() != m.is_empty() { return Err(format!("is_empty() = {} for text {:?}", r.is_empty(), m)); }
     if r.to_string() != m { return Err(format!("to_string() = {:?}, expected {:?}", r.to_string(), m)); }
     if &*r.to_bytes() != m.as_bytes() { return Err(format!("to_bytes() differs from the bytes of {:?}", m)); }
-    if !(r == &Rope::from(m)) || !(*r == *m) { return Err(format!("rope is not equal to its own text {:?}", m)); }
+    if !(r == &Rope::from(m)) || !(*r == *m) || !(*r == m) { return Err(format!("rope is not equal to its own text {:?}", m)); }
+    if r.char_indices().collect::<Vec<_>>() != m.char_indices().collect::<Vec<_>>() { return Err(format!("char_indices() = {:?} on text {:?}", r.char_indices().collect::<Vec<_>>(), m)); }
+    for c in ['a', 'c', 'f', 'y', '\n', 'é', '本', '😀'] {
+      if r.ends_with(c) != m.ends_with(c) { return Err(format!("ends_with({:?}) = {} on text {:?}", c, r.ends_with(c), m)); }
+    }
+    for t in ["", "a", "ab", "é", "\u{e8}", "x\ny", "bc"] {
+      if (*r == *t) != (m == t) { return Err(format!("rope == {:?} is {} for text {:?}", t, *r == *t, m)); }
+      if (*r == t) != (m == t) { return Err(format!("rope == &{:?} is {} for text {:?}", t, *r == t, m)); }
+    }
   }
+  if unsafe_only && !catching() { let _ = r.char_indices().count(); let _ = r.ends_with('a'); let _ = r.is_empty(); }
   for k in 0..=m.len() + 1 {
     if catching() { let _ = catch_unwind(AssertUnwindSafe(|| r.get_byte(k))); continue; }
     if unsafe_only { let _ = r.get_byte(k); continue; }
@@ -121,6 +130,17 @@ fn run(p: &[Op], unsafe_only: bool) -> Result<(), String> {
       }
     }
     observe(&ropes[touched], &models[touched], 1, unsafe_only).map_err(|e| format!("after {:?}: {e}", op))?;
+    // binary observers: the touched rope against every rope on the stack, both ways (starts_with, ==), against the String model
+    if !unsafe_only || !catching() {
+      for i in 0..ropes.len() {
+        for (x, y) in [(touched, i), (i, touched)] {
+          let (g, e) = (ropes[x].starts_with(&ropes[y]), models[x].starts_with(models[y].as_str()));
+          if g != e && !unsafe_only { return Err(format!("after {:?}: rope #{x} ({:?}).starts_with(rope #{y} ({:?})) = {g}", op, models[x], models[y])); }
+          let (g, e) = (ropes[x] == ropes[y], models[x] == models[y]);
+          if g != e && !unsafe_only { return Err(format!("after {:?}: rope #{x} ({:?}) == rope #{y} ({:?}) is {g}", op, models[x], models[y])); }
+        }
+      }
+    }
     // every other rope is unchanged (clones share their piece table)
     for i in 0..ropes.len() { if i != touched && !unsafe_only && ropes[i].to_string() != models[i] { return Err(format!("after {:?}: rope #{i} changed to {:?}, expected {:?}", op, ropes[i].to_string(), models[i])); } }
   }
@@ -179,7 +199,10 @@ pub fn search(args: &[String]) -> i32 {
   let mut tried = 0u64;
   // fixed shapes first: empty leading piece, three pieces, slices on piece boundaries, shared clones
   let fixed = ["N_A0.2_A0.4", "N_A0.1_P0.0_S0.0.1", "I2.7.4_S0.1.8_S1.1.3", "I1.2.7_A0.3_C0_A0.6_P1.0", "F2_P0.0_A0.3_S0.2.5", "N_I2.0.7_P0.1_P0.1", "I4.4.4_S0.3.12_S1.3.6",
-               "F1_I3.4_P0.1_S0.1.3", "I2.7_C0_A0.1_A1.4", "N_F7_P0.1_I2.5_P0.2_S0.2.6"];
+               "F1_I3.4_P0.1_S0.1.3", "I2.7_C0_A0.1_A1.4", "N_F7_P0.1_I2.5_P0.2_S0.2.6",
+               // trailing empty piece (slice ending where an empty piece sits), prefix tests against it; multi-byte comparison windows
+               "N_A0.1_N_A1.2_P0.1_S0.0.1_N_A3.1", "N_A0.8_N_A1.1_P0.1_S0.0.1", "F2_N_A1.1_A1.5", "N_A0.3_A0.1_N_A1.1_A1.1_A1.1", "N_A0.3_A0.7_N_A1.1_A1.2_A1.7", "N_A0.4_N_A1.3_A1.3_A1.3",
+               "I1.2_N_A1.1_P0.1_S0.0.3_I1.2_I1.2.1"];
   for f in fixed {
     tried += 1;
     println!("CASE {f}");
